@@ -228,6 +228,7 @@ func main() {
 	}
 	addConnLevel(r, &scs)
 	addServerLevel(r, &scs)
+	addConc(r, &scs)
 	sum := mcx.Explore(r, scs, mcx.Config{Wall: ev.Pick(r, 3*time.Minute, 20*time.Minute)})
 	mcx.Report(r, scs, sum)
 	r.Set("rule", "every history up to the depth over {recv, wait P/2, tick(+P/2), tick(+P-1ms), tick(+P+1ms), tick(+2P+1ms), pong(current ping), late pong(previous ping)} applied to the real Monitor/KeepAlive (wired as options.WithKeepAlive does) with a virtual clock; reference: tick fires iff now > last received + P; plain monitor closes iff fires; keep-alive closes exactly at a firing tick at which more than maxRetries consecutive detections are uncredited, credit = any received message (pong or other); distinct outcome = distinct history + close count; split variant: pong arrival (a received message) and the run of the ping's callback are separate events; connection level: real udp/tcp conns configured by the real options incl. reads ending inside the next message; server level: udp server with per-peer inactivity monitor and with keep-alive (maxRetries=2), two peers, pongs per peer")
